@@ -45,6 +45,11 @@ def run(ctx):
     if len(got) != 1:
         raise core.Infra("binding guard: a corrupted allowed-outcome set was accepted by the randsrc replayer")
     ctx.extra["binding_guard"] = 1
+    # a rejection that is not a range rejection: SM9 key encapsulation draws again when K is all zero (klen = 1: one nonce in 256).
+    # Recorded through the library with a scripted stream whose first nonce gives K = 00; Trace_Sm9!TWrapK0 decides that the
+    # ephemeral secret behind the output is exactly the NEXT block (C = [r2]Q_B, e(C, de_B) = g^r2) and that two blocks were consumed
+    wz = ctx.record("sm9-wrapzero", 2 if quick else 6, name="sm9-wrapzero")
+    ctx.validate("Trace_Sm9", wz, "sm9-wrapzero", shards=1 if quick else 3, guard=False, label="wrapzero", timeout=1500)
     ctx.sample_traces(out)
     ctx.count_distinct(out, lambda t: (t["steps"][0]["what"], t["steps"][0]["stream"][:70], str(t["steps"][0]["fault"])))
     ctx.assumptions += ["statistical uniformity is not tested: the check pins the stronger fact that the scalar EQUALS the first in-range 32-byte block of the supplied stream (after the documented 0x42 tweak for key generators) at one of the two MaybeReadByte alignments, with the exact number of bytes consumed",
